@@ -165,22 +165,31 @@ def PPutOK (c : ECfg) (p : Nat) (bs : Bytes) (vp : List PObj → PyVal → Prop)
   PRunsP c bs (fun st => PMemoInv p s st ∧ ∃ r rest, st.stack = r :: rest ∧ vp st.heap r)
     (fun st st' => PMemoInv p s' st' ∧ st'.stack = st.stack ∧ st'.metas = st.metas ∧ st'.heap = st.heap)
 
-theorem pputOK_S (p : Nat) (s s' : PSt) (key : Option PKey) (pb : Bytes) (h : putS p s key = some (pb, s')) :
+theorem pputOK_S {mz : Option PKey → Bool} (p : Nat) (s s' : PSt) (key : Option PKey) (pb : Bytes) (h : putS mz p s key = some (pb, s')) :
     PPutOK c p pb (fun hp r => ∀ k, key = some k → PHolds p hp k r) s s' := by
   unfold putS at h
-  by_cases hn : s.n < 2 ^ 32
-  · simp only [hn, if_true, Option.some.injEq, Prod.mk.injEq] at h
+  by_cases hm : mz key = true
+  · simp only [hm, if_true] at h
+    unfold putS1 at h
+    by_cases hn : s.n < 2 ^ 32
+    · simp only [hn, if_true, Option.some.injEq, Prod.mk.injEq] at h
+      obtain ⟨rfl, rfl⟩ := h
+      refine PRunsP.weaken (pruns_put_key p s.n hn) ?_ ?_
+      · intro st ⟨hinv, r, rest, hs, _⟩
+        exact ⟨hinv.1, r, rest, hs⟩
+      · intro st st' ⟨hinv, r0, rest0, hs0, hv⟩ _ ⟨r, rest, hs, e⟩
+        rw [hs0] at hs
+        injection hs with h1 h2
+        subst h1; subst h2
+        subst e
+        exact ⟨hinv.put hn key r0 hv, rfl, rfl, rfl⟩
+    · simp [hn] at h
+  · simp only [hm, Bool.false_eq_true, if_false, Option.some.injEq, Prod.mk.injEq] at h
     obtain ⟨rfl, rfl⟩ := h
-    refine PRunsP.weaken (pruns_put_key p s.n hn) ?_ ?_
-    · intro st ⟨hinv, r, rest, hs, _⟩
-      exact ⟨hinv.1, r, rest, hs⟩
-    · intro st st' ⟨hinv, r0, rest0, hs0, hv⟩ _ ⟨r, rest, hs, e⟩
-      rw [hs0] at hs
-      injection hs with h1 h2
-      subst h1; subst h2
-      subst e
-      exact ⟨hinv.put hn key r0 hv, rfl, rfl, rfl⟩
-  · simp [hn] at h
+    refine PRunsP.weaken PRunsP.nil (fun _ h => h) ?_
+    intro st st' hp _ e
+    subst e
+    exact ⟨hp.1, rfl, rfl, rfl⟩
 
 /-- `memo_get` on the Python machine. -/
 theorem pruns_get (p : Nat) (s : PSt) (k : PKey) (idx : Nat) (hf : s.find k = some idx) :
